@@ -75,7 +75,7 @@ fn by_print(parse: fn(&str) -> Result<(String, Paras), String>, a: &str, b: &str
     Ok(pa == pb && ia == ib)
 }
 fn control_shapes() -> Vec<Vec<&'static str>> {
-    vec![vec![SRC], vec![SRC, BIN], vec![BIN, SRC], vec![SRC, BIN, BIN], vec![BIN, SRC, BIN], vec![BIN, BIN, SRC]]
+    vec![vec![SRC], vec![SRC, BIN], vec![BIN, SRC], vec![SRC, BIN, BIN], vec![BIN, SRC, BIN], vec![BIN, BIN, SRC], vec![SRC, BIN, BIN, BIN], vec![BIN, SRC, BIN, BIN]]
 }
 fn control_order(ids: &[&'static str]) -> Vec<usize> {
     let mut v: Vec<usize> = ids.iter().enumerate().filter(|(_, x)| **x == SRC).map(|(i, _)| i).collect();
@@ -90,7 +90,29 @@ fn control_invalid() -> Vec<String> {
         "Source: a\n\nX-Other: 1\n".into(),
         "X-Other: 1\n".into(),
         "".into(),
+        // a paragraph of neither kind in front and in the middle; near misses of the distinguishing fields
+        "X-Other: 1\n\nSource: a\n\nPackage: b\n".into(),
+        "Source: a\n\nX-Other: 1\n\nPackage: b\n".into(),
+        "Source: a\n\nPackage-Type: deb\nArchitecture: any\n".into(),
+        "X-Source: s\n\nPackage: a\n".into(),
+        "Sources: s\n".into(),
     ]
+}
+/// every structurally invalid text also without its final newline and behind a comment line
+fn with_arrivals(v: Vec<String>) -> Vec<String> {
+    let mut out = vec![];
+    for t in v {
+        if let Some(cut) = t.strip_suffix('\n') {
+            if !cut.is_empty() {
+                out.push(cut.to_string());
+            }
+        }
+        if !t.is_empty() {
+            out.push(format!("# c\n{}", t));
+        }
+        out.push(t);
+    }
+    out
 }
 
 fn copyright_parse(t: &str) -> Result<(String, Paras), String> {
@@ -109,7 +131,7 @@ fn copyright_equal(a: &str, b: &str) -> Result<bool, String> {
     Ok(debian_copyright::lossy::Copyright::from_str(a)? == debian_copyright::lossy::Copyright::from_str(b)?)
 }
 fn copyright_shapes() -> Vec<Vec<&'static str>> {
-    vec![vec![CH], vec![CH, CF], vec![CH, CL], vec![CH, CF, CL], vec![CH, CL, CF], vec![CH, CF, CF], vec![CH, CF, CL, CF], vec![CH, CL, CF, CL]]
+    vec![vec![CH], vec![CH, CF], vec![CH, CL], vec![CH, CF, CL], vec![CH, CL, CF], vec![CH, CF, CF], vec![CH, CF, CL, CF], vec![CH, CL, CF, CL], vec![CH, CF, CF, CF], vec![CH, CL, CL, CL]]
 }
 fn copyright_order(ids: &[&'static str]) -> Vec<usize> {
     let mut v = vec![0];
@@ -126,6 +148,10 @@ fn copyright_invalid() -> Vec<String> {
         format!("{}\nFiles: *\nLicense: MIT\n", f),
         "".into(),
         "Upstream-Name: x\n".into(),
+        // a paragraph of neither kind between valid ones; near misses of the distinguishing fields
+        format!("{}\nX-Other: 1\n\nFiles: *\nCopyright: c\nLicense: MIT\n", f),
+        format!("{}\nFiles-Excluded: x\n", f),
+        format!("{}\nLicence: MIT\n text\n", f),
     ]
 }
 
@@ -199,7 +225,7 @@ one_para_shapes!(sh_removal, "lossy::ftpmaster::Removal");
 one_para_shapes!(sh_buildinfo, "lossy::buildinfo::Buildinfo");
 one_para_shapes!(sh_dep3, "lossy::dep3::PatchHeader");
 fn sh_repos() -> Vec<Vec<&'static str>> {
-    vec![vec![REPO], vec![REPO, REPO]]
+    vec![vec![REPO], vec![REPO, REPO], vec![REPO, REPO, REPO]]
 }
 
 pub fn kinds() -> Vec<DocKind> {
@@ -525,7 +551,7 @@ impl Prop for C20 {
             return;
         }
         for kind in &ks {
-            for i in 0..(kind.invalid)().len() {
+            for i in 0..with_arrivals((kind.invalid)()).len() {
                 f(&C20Case::Structural { kind: kind.id.to_string(), i });
             }
         }
@@ -561,7 +587,7 @@ impl Prop for C20 {
             }
             C20Case::Structural { kind, i } => {
                 let Some(k) = ks.iter().find(|k| k.id == kind) else { return vec![] };
-                let inv = (k.invalid)();
+                let inv = with_arrivals((k.invalid)());
                 let Some(text) = inv.get(*i) else { return vec![] };
                 match (k.parse)(text) {
                     Ok(_) => vec![viol("structurally-invalid-rejected", format!("{} {:?}: accepted", k.id, text))],
